@@ -1317,6 +1317,10 @@ func (st *State) execCall(th *Thread, fr *Frame, x ssa.Value, c *ssa.CallCommon,
 	if st.initMode && strings.HasPrefix(f.Fn.Name(), "init") && f.Fn.Pkg != fr.fn.Pkg {
 		return stNext // package initialisers of other packages are not run
 	}
+	if len(st.initStack) > 0 && fr.fn.Name() == "init" && fr.fn.Synthetic != "" &&
+		((f.Fn.Name() == "init" && f.Fn.Synthetic != "") || strings.HasPrefix(f.Fn.Name(), "init#")) {
+		return stNext // lazily run variable initialisers: neither other packages' initialisers nor init() functions
+	}
 	if r, status, handled := st.intrinsic(th, fr, f, args, c); handled {
 		if status == stNext {
 			st.setLocal(fr, x, r)
